@@ -201,11 +201,41 @@ class SWorld:
                     self.sv = emg3d.Survey.from_file(fn, verb=0)
             elif op == "misfit":
                 return "value", self.misfit_check()
+            elif op == "sim_misfit":
+                return "value", self.misfit_persistent()
             else:
                 raise ValueError(op)
         except ValueError as e:
             return "error", str(e)[:100]
         return "ok", None
+
+    def misfit_persistent(self):
+        """SimMisfit: a Simulation that lives as long as the survey object
+        does; the documented refresh after a change of the noise settings is
+        clean('computed'); the misfit must then follow the current std.  The
+        weights stay cached in the survey afterwards (as for a real user)."""
+        hx = np.ones(4)*100.
+        grid = emg3d.TensorMesh([hx, hx, hx], (-300, -200, -200))
+        if getattr(self, "_psim", None) is None or \
+                self._psim.survey is not self.sv:
+            self._psim = emg3d.Simulation(
+                self.sv, emg3d.Model(grid, 1.0), gridding='same',
+                max_workers=1, tqdm_opts={'disable': True})
+        sim = self._psim
+        sim.clean('computed')
+        obs = self.sv.data.observed.data
+        sim.data['synthetic'][...] = np.where(np.isfinite(obs), obs + (3+4j),
+                                              np.nan)
+        sim._computed = True
+        m = float(sim.misfit)
+        std = self.sv.standard_deviation.data
+        ok = np.isfinite(obs) & np.isfinite(std)
+        exp = 0.5*np.sum(25.0/std[ok]**2)
+        if not np.isclose(m, exp, rtol=1e-12, atol=0):
+            return (f"misfit of a long-lived simulation after "
+                    f"clean('computed') is {m}, but 1/2 sum |r|^2/std^2 = "
+                    f"{exp} for the current noise settings")
+        return None
 
     def misfit_check(self):
         sv = self.sv.copy()
@@ -215,6 +245,7 @@ class SWorld:
                                max_workers=1, tqdm_opts={'disable': True})
         obs = sv.data.observed.data
         syn = np.where(np.isfinite(obs), obs + (3+4j), np.nan)
+        sim.clean('computed')     # cached weights travel with the data
         sim.data['synthetic'][...] = syn
         sim._computed = True
         m = float(sim.misfit)
@@ -231,6 +262,7 @@ class SWorld:
         sim2 = emg3d.Simulation(rs, emg3d.Model(grid, 1.0), gridding='same',
                                 max_workers=1, tqdm_opts={'disable': True})
         obs2 = rs.data.observed.data
+        sim2.clean('computed')
         sim2.data['synthetic'][...] = np.where(np.isfinite(obs2),
                                                obs2 + (3+4j), np.nan)
         sim2._computed = True
@@ -288,6 +320,9 @@ class SWorld:
                     diffs.append(f"{attr}: spec array pattern {set_['v']} "
                                  f"{exp.ravel().tolist()} code "
                                  f"{None if val is None else np.asarray(val).ravel().tolist()}")
+        if "wc" in st and ('weights' in sv.data.keys()) != (st["wc"] != "none"):
+            diffs.append(f"cached weights: spec {st['wc']} code "
+                         f"{'weights' in sv.data.keys()}")
         if ('standard_deviation' in sv.data.keys()) != (st["stdx"] == 1):
             diffs.append(f"explicit std: spec {st['stdx']}")
         # the standard deviation itself
